@@ -696,6 +696,12 @@ func (m *Machine) WhenQueueEnds() <-chan struct{} {
 	m.queueMx.Lock()
 	defer m.queueMx.Unlock()
 
+	// the queue may have ended while waiting for the lock, and its waiters have
+	// been served already
+	if !m.queueRunning.Load() {
+		return m.subs.Closed
+	}
+
 	return m.subs.WhenQueueEnds()
 }
 
